@@ -53,7 +53,9 @@ class CollectiveAnomalyDetector(BaseDetector):
             * ``"label"`` - integer labels 1, ..., K for each segment anomaly.
             0 is reserved for the normal instances.
         """
-        labels = pd.IntervalIndex(y_sparse["ilocs"]).get_indexer(index)
+        # The intervals refer to integer positions, not to the values of `index`.
+        positions = np.arange(len(index))
+        labels = pd.IntervalIndex(y_sparse["ilocs"]).get_indexer(positions)
         # `get_indexer` return values 0 for the values inside the first interval, 1 to
         # the values within the next interval and so on, and -1 for values outside any
         # interval. The `skchange` convention is that 0 is normal and > 0 is anomalous,
